@@ -1,6 +1,7 @@
 """Query helpers shared by the rule modules."""
 import collections
 from .facts import callee_name, callee_decl, callee_is_local
+from .cfg import const_switch_value
 from .terms import T, Term, walk, fmt, short, TERM_IDX, contains, find_all, ELEM_NEXT
 
 
@@ -286,6 +287,9 @@ class Ctx(object):
 
     def rejecting(self, body, bb, reject=('err', 'none')):
         o = self.outcomes(body).get(bb)
+        if o is not None and not o:
+            # no normal path from here reaches a return at all (a failed assertion, `unreachable!()`): not an accepted continuation
+            return True
         return bool(o) and o <= set(reject)
 
     def ok_sites(self, body):
@@ -343,6 +347,9 @@ class Ctx(object):
             if p is None or p == n:
                 break
             t = body.block[p]['term']
+            if t['k'] == 'switch' and const_switch_value(body.block[p]) is not None:
+                n = p
+                continue            # a compile-time constant decides nothing about the inputs
             if t['k'] == 'switch':
                 edges = [(str(v), tgt) for v, tgt in t['arms']] + [('otherwise', t['otherwise'])]
                 owners, otargets = [], []
@@ -352,18 +359,61 @@ class Ctx(object):
                         if not others:
                             owners.append(v)
                             otargets.append(tgt)
+                outs = self.outcomes(body)
+                others_ = [tgt for v, tgt in edges if v not in owners]
+                if others_ and all(outs.get(tgt) is not None and not outs.get(tgt) for tgt in others_):
+                    # the other arm only panics (`debug_assert!`, `assert!`, `unreachable!()`): an assertion is not a condition under
+                    # which the code below applies to fewer inputs -- whether it can fail is the panic rules' question
+                    n = p
+                    continue
                 if len(owners) >= 1 and len(owners) < len(edges):
                     res.append((p, self.eng.operand(body, p, TERM_IDX, t['discr']), tuple(owners), tuple(otargets)))
                     # the switch operand is a flag set to constants on different paths (`matches!(x, A)`, `let f = a && b`): the value that
                     # leads here was set at one place, and whatever decided that place holds here as well
                     d = t['discr']
                     if d['k'] in ('copy', 'move') and not d['place']['p'] and depth < 3:
-                        wd = self.eng.bx(body).whole_defs(d['place']['l'])
+                        ixb = self.eng.bx(body)
+                        # the flag may be read through copies, a negation, and a component of a tuple of flags
+                        # (`let (checks, recovers) = match action { A => (true, false), .. }; if !checks { .. }`)
+                        fl, fld, neg_ = d['place']['l'], None, False
+                        for _hop in range(6):
+                            w1 = ixb.whole_defs(fl)
+                            if len(w1) != 1 or w1[0][2] != 'assign':
+                                break
+                            rv1 = w1[0][3]['rv']
+                            if rv1['k'] == 'use' and rv1['op'].get('k') in ('copy', 'move'):
+                                pp = rv1['op']['place']
+                                if not pp['p']:
+                                    fl = pp['l']
+                                    continue
+                                if fld is None and len(pp['p']) == 1 and pp['p'][0]['k'] == 'field':
+                                    fl, fld = pp['l'], pp['p'][0]['i']
+                                    continue
+                                if len(pp['p']) == 1 and pp['p'][0]['k'] == 'deref':
+                                    # read through a reference to the flag (the guard of a match arm borrows what it tests)
+                                    w2 = ixb.whole_defs(pp['l'])
+                                    if len(w2) == 1 and w2[0][2] == 'assign' and w2[0][3]['rv']['k'] == 'ref' and not w2[0][3]['rv']['place']['p']:
+                                        fl = w2[0][3]['rv']['place']['l']
+                                        continue
+                                break
+                            if rv1['k'] == 'unop' and rv1.get('op') == 'Not' and rv1.get('a', {}).get('k') in ('copy', 'move') and not rv1['a']['place']['p']:
+                                fl, neg_ = rv1['a']['place']['l'], not neg_
+                                continue
+                            break
+                        wd = ixb.whole_defs(fl)
                         consts = []
                         for (dbb, didx, kind, node) in wd:
-                            if kind == 'assign' and node['rv']['k'] == 'use' and node['rv']['op']['k'] == 'const' and ('bool' in node['rv']['op'] or 'int' in node['rv']['op']):
+                            o = None
+                            if kind == 'assign' and fld is None and node['rv']['k'] == 'use' and node['rv']['op']['k'] == 'const':
                                 o = node['rv']['op']
-                                consts.append((dbb, str(int(o['bool'])) if 'bool' in o else str(o['int'])))
+                            elif kind == 'assign' and fld is not None and node['rv']['k'] == 'aggregate' and node['rv']['kind'].get('a') == 'tuple' and fld < len(node['rv']['ops']) \
+                                    and node['rv']['ops'][fld].get('k') == 'const':
+                                o = node['rv']['ops'][fld]
+                            if o is not None and ('bool' in o or 'int' in o):
+                                v_ = int(o['bool']) if 'bool' in o else int(o['int'])
+                                if neg_ and v_ in (0, 1):
+                                    v_ = 1 - v_
+                                consts.append((dbb, str(v_)))
                             else:
                                 consts = None
                                 break
@@ -372,6 +422,19 @@ class Ctx(object):
                             match = [dbb for dbb, v in consts if (v in owners) or ('otherwise' in owners and v not in armvals)]
                             if len(match) == 1 and match[0] != bb:
                                 for x in self.path_conditions(body, match[0], depth + 1):
+                                    if x not in res:
+                                        res.append(x)
+                            elif len(match) > 1 and bb not in match:
+                                # the value that leads here is set in several arms of one and the same switch (`match action { A => (true, ..),
+                                # B => (true, ..), C => (false, ..) }`): here holds "the operand of that switch is one of those arms"
+                                firsts = []
+                                for dbb in match:
+                                    pc_ = self.path_conditions(body, dbb, depth + 1)
+                                    firsts.append(pc_[0] if pc_ else None)
+                                if all(f_ is not None for f_ in firsts) and len({(f_[0], f_[1].id) for f_ in firsts}) == 1:
+                                    arms_ = tuple(sorted({a_ for f_ in firsts for a_ in f_[2]}))
+                                    tg_ = tuple(t_ for f_ in firsts for t_ in f_[3])
+                                    x = (firsts[0][0], firsts[0][1], arms_, tg_)
                                     if x not in res:
                                         res.append(x)
             n = p
